@@ -7,6 +7,7 @@ import NaijaVerif.Driver.AstIO
 import NaijaVerif.Driver.Util
 import NaijaVerif.Driver.Run
 import NaijaVerif.Model.AnalysisPrims
+import NaijaVerif.Lemmas.AnalysisRefineTop
 /-!
 Family `plan` (property C03).  Request:
 ```
@@ -205,7 +206,10 @@ def answer (line : String) : String :=
           let live := C03.structOkB root facts
           let modelOk := C03.modelOkB root facts
           let b := fun (x : Bool) => if x then 1 else 0
-          s!"cover total={total} proved={proved} unreach={unr} fns={plan.fns.length} ok={b ok} live={b live} distinct={b distinct} global={b glob} fnsok={b fnsOk} rootok={b rootOk} model={b modelOk}"
+          -- the static side conditions of the bridge to `Model/Eval.lean` (`c03_bridge`, `c03_eval`): the program is
+          -- annotated and the oracle computed from the facts accepts every block and parameter list
+          let bridge := C03.okBlock (C03.orcOf (fun lex => (NumOps.ofLit lex : Option Float).isSome) facts) root
+          s!"cover total={total} proved={proved} unreach={unr} fns={plan.fns.length} ok={b ok} live={b live} distinct={b distinct} global={b glob} fnsok={b fnsOk} rootok={b rootOk} model={b modelOk} bridge={b bridge}"
       | _, _ => "cover malformed"
   | _ => "bad-op"
 
